@@ -225,6 +225,7 @@ pub (crate) fn bid128_from_string(str: &str, rnd_mode: RoundingMode, pfpsf: &mut
     let mut d2: i32;
     let mut rdx_pt_enc: i32;
     let mut set_inexact: bool = false;
+    let mut sticky_beyond: bool = false;
     let mut c: Option<char>;
     let mut buffer: [char; MAX_STRING_DIGITS_128] = [' '; MAX_STRING_DIGITS_128];
     let mut ps: usize = 0;
@@ -373,7 +374,8 @@ pub (crate) fn bid128_from_string(str: &str, rnd_mode: RoundingMode, pfpsf: &mut
                     set_inexact = true;
                 }
             } else if c > Some('0') {
-                set_inexact = true;
+                set_inexact   = true;
+                sticky_beyond = true;
             }
             ps             += 1;
             c               = str.chars().nth(ps);
@@ -395,7 +397,8 @@ pub (crate) fn bid128_from_string(str: &str, rnd_mode: RoundingMode, pfpsf: &mut
                             set_inexact = true;
                         }
                     } else if c.unwrap() as i32 > '0' as i32 {
-                        set_inexact = true;
+                        set_inexact   = true;
+                        sticky_beyond = true;
                     }
                     ps            += 1;
                     c              = str.chars().nth(ps);
@@ -420,7 +423,8 @@ pub (crate) fn bid128_from_string(str: &str, rnd_mode: RoundingMode, pfpsf: &mut
                     set_inexact = true;
                 }
             } else if c.unwrap() as i32 > '0' as i32 {
-                set_inexact = true;
+                set_inexact   = true;
+                sticky_beyond = true;
             }
             ps            += 1;
             c              = str.chars().nth(ps);
@@ -575,20 +579,20 @@ pub (crate) fn bid128_from_string(str: &str, rnd_mode: RoundingMode, pfpsf: &mut
                         carry = 0;
                         i    += 1;
                     }
-                    if buffer[i..ndigits_total].iter().any(|c| *c as i32 > '0' as i32) {
+                    if (sticky_beyond || buffer[i..ndigits_total.min(MAX_STRING_DIGITS_128)].iter().any(|c| *c as i32 > '0' as i32)) {
                         carry = 1;
                     }
                 }
             },
             RoundingMode::Downward => {
                 if sign_x != 0
-                && buffer[i..ndigits_total].iter().any(|c| *c as i32 > '0' as i32) {
+                && (sticky_beyond || buffer[i..ndigits_total.min(MAX_STRING_DIGITS_128)].iter().any(|c| *c as i32 > '0' as i32)) {
                     carry = 1;
                 }
             },
             RoundingMode::Upward => {
                 if sign_x == 0
-                && buffer[i..ndigits_total].iter().any(|c| *c as i32 > '0' as i32) {
+                && (sticky_beyond || buffer[i..ndigits_total.min(MAX_STRING_DIGITS_128)].iter().any(|c| *c as i32 > '0' as i32)) {
                     carry = 1;
                 }
             },
@@ -599,7 +603,7 @@ pub (crate) fn bid128_from_string(str: &str, rnd_mode: RoundingMode, pfpsf: &mut
                 let digit = char::to_digit(buffer[i], 10).unwrap() as i32;
                 carry = (((4 - digit) as u32) >> 31) as BID_UINT64;
                 if dec_expon < 0
-                && buffer[i..ndigits_total].iter().any(|c| *c as i32 > '0' as i32) {
+                && (sticky_beyond || buffer[i..ndigits_total.min(MAX_STRING_DIGITS_128)].iter().any(|c| *c as i32 > '0' as i32)) {
                     carry = 1;
                 }
             }
